@@ -460,8 +460,23 @@ func genCases(r *hlib.Run) []*kase {
 	if T {
 		scale = 12
 	}
+	// The Lean model costs ~20 k instructions per payload byte (2 encodes + 2 decodes): it gets every
+	// payload up to 4 KiB and the larger ones while the budget lasts (fixed shapes come first); the
+	// implementation-side oracles run on every payload.
+	modelBudget := 2_600_000
+	if T {
+		modelBudget = 60_000_000
+	}
 	add := func(name string, data []byte, external, chunked bool) {
-		ks = append(ks, &kase{kind: "rt", name: name, data: data, model: len(data) <= 300*1024, external: external, chunked: chunked})
+		m := len(data) <= 4096
+		if !m && modelBudget >= len(data) {
+			m = true
+			modelBudget -= len(data)
+		}
+		if !m {
+			r.Count("model-skipped(payload too large for the model budget)")
+		}
+		ks = append(ks, &kase{kind: "rt", name: name, data: data, model: m, external: external, chunked: chunked})
 	}
 
 	// fixed shapes
@@ -469,15 +484,20 @@ func genCases(r *hlib.Run) []*kase {
 	for _, b := range []byte{0x00, 0xFF, 0x80, 0x5D, byte(rng.Uint64())} {
 		add("one-byte", []byte{b}, true, true)
 	}
-	for _, n := range []int{2, 3, 4, 5, 6, 7, 8, 9, 10, 11, 12, 16, 100, 4096, 65535, 65536, 65537, 131072, 131073, 200 * 1024} {
-		add("all-00", rep(0x00, n), true, n <= 70000)
+	for _, n := range []int{2, 3, 4, 5, 6, 7, 8, 9, 10, 11, 12, 16, 100, 4096, 65535, 65536, 65537, 131073, 200 * 1024} {
 		add("all-FF", rep(0xFF, n), true, n <= 70000)
+		add("all-00", rep(0x00, n), true, n <= 70000)
 	}
-	for _, n := range []int{65535, 65536, 65537, 131071, 131072, 131073, 196608, 200 * 1024} {
+	edges := []int{65535, 65536, 65537, 131073}
+	if T {
+		edges = []int{65535, 65536, 65537, 131071, 131072, 131073, 196607, 196608, 196609, 200 * 1024}
+	}
+	for _, n := range edges {
 		add("chunk-edge:random", rng.Bytes(n), true, false)
 		add("chunk-edge:text", textLike(r.Repo, rng, n), true, false)
 		add("chunk-edge:low-entropy", lowEntropy(rng, n, 2+rng.Intn(6)), true, false)
 	}
+	add("chunk-edge:random", rng.Bytes(200*1024), true, false)
 	// mixed chunks: compressible and incompressible 64 KiB pieces in every order of 2 and some of 3
 	piece := func(kind int, n int) []byte {
 		switch kind {
